@@ -108,6 +108,12 @@ func (r *diffRun) fresh() *diffSide {
 func (r *diffRun) mutate(s *diffSide, n int, delBias int) {
 	for i := 0; i < n; i++ {
 		k := 1 + r.rng.Intn(r.cfg.NK)
+		if r.cfg.NK > 100 && r.rng.Intn(2) == 0 {
+			// large trees: prefer keys that live in interior nodes (changing them shifts the children to their right)
+			for try := 0; try < 200 && r.kc.layers[k-1] == 0; try++ {
+				k = 1 + r.rng.Intn(r.cfg.NK)
+			}
+		}
 		if v, ok := s.model[k]; ok && r.rng.Intn(10) < delBias {
 			if err := s.m.Delete(ctx, r.kc.Key(k), r.vc.Val(v)); err != nil {
 				panic(fmt.Sprintf("diff driver: delete failed: %v", err))
@@ -335,6 +341,7 @@ func diffCase(id int, seed int64, out *json.Encoder, big bool) {
 	r.cfg.Layers = r.kc.layers
 	if big {
 		r.cfg.Layers = []int{}
+		r.cfg.NK = len(r.kc.keys)
 	}
 	r.vc = newValCodec(cfg.VT)
 	r.st = newRecStore(fmt.Sprintf("diff-%d", id))
@@ -645,12 +652,16 @@ func bigKeyCodec(kt string, nk int, bf uint) *keyCodec {
 		switch kt {
 		case "int":
 			c.keys = append(c.keys, i*3-nk)
+			c.layers = append(c.layers, intLayerRef(int64(i*3-nk), bf))
 			c.zero = 0
 		case "uint64":
 			c.keys = append(c.keys, uint64(i*2))
+			c.layers = append(c.layers, uintLayerRef(uint64(i*2), bf))
 			c.zero = uint64(0)
 		default:
-			c.keys = append(c.keys, fmt.Sprintf("key%06d", i))
+			s := fmt.Sprintf("key%06d", i)
+			c.keys = append(c.keys, s)
+			c.layers = append(c.layers, blobLayerRef([]byte(s), bf))
 			c.zero = ""
 		}
 	}
